@@ -142,10 +142,14 @@ func c16Metric(binary bool, aspect, strLen int) {
 	verifrt.Reach("c16.metric.end")
 }
 
-func VerifC16CompactValues()  { c16Metric(false, verifrt.Choose("aspect", 2), 0) }
-func VerifC16BinaryValues()   { c16Metric(true, verifrt.Choose("aspect", 2), 0) }
-func VerifC16CompactStrings() { c16Metric(false, 2+verifrt.Choose("aspect", 2), verifrt.Choose("strlen", 3)) }
-func VerifC16BinaryStrings()  { c16Metric(true, 2+verifrt.Choose("aspect", 2), verifrt.Choose("strlen", 3)) }
+func VerifC16CompactValues() { c16Metric(false, verifrt.Choose("aspect", 2), 0) }
+func VerifC16BinaryValues()  { c16Metric(true, verifrt.Choose("aspect", 2), 0) }
+func VerifC16CompactStrings() {
+	c16Metric(false, 2+verifrt.Choose("aspect", 2), verifrt.Choose("strlen", 3))
+}
+func VerifC16BinaryStrings() {
+	c16Metric(true, 2+verifrt.Choose("aspect", 2), verifrt.Choose("strlen", 3))
+}
 func VerifC16CompactLongStrings() {
 	c16Metric(false, 2+verifrt.Choose("aspect", 2), 126+verifrt.Choose("strlen", 4))
 }
